@@ -102,7 +102,8 @@ P = {
          "decoder's verdict) and is an oracle (the real decoder on a fresh device) for the others; CPython task scheduling inside one loop iteration is not modelled."),
  "C10": ("Theorems C10_unique (for every sequence of frame arrivals, class-loading completions and user get() calls, the locked device-entry "
          "model creates at most one object, starts set-up exactly once per object, and every handled frame and every get() lands on that object) "
-         "and C10_complete (once loading completed nothing is left waiting and every arrived frame has been handled) - closed, by invariant; "
+         "and C10_complete (once loading completed nothing is left waiting and every arrived frame has been handled), C10_getters (every caller of "
+         "get() has been answered once the entry is published) - closed, by invariant; "
          "C10_pinned_refuted for the unserialised (pinned) behaviour. Real AsyncProtocol with run_in_executor replaced by harness-held futures: "
          "exhaustive enumeration of 1..4 frames x 1..3 consumers x completion position x 0..2 get() positions (645 schedules).",
          "partial: thread-pool timing is reduced to the position of the completion event; CPython's ready-queue order within one iteration is not an input."),
